@@ -214,12 +214,12 @@ theorem recovers_after_fault {s : CS} {c : Nat} (k : Nat) (hst : s.st = .connect
 
 /-! ### the reconnect task (C13) -/
 
-/-- only the four `reconn*` events look at or touch `reconn` / `reconnSlept` -/
+/-- only the four `reconn*` events look at or touch `reconn` / `reconnSlept`; a call uses up the wait -/
 theorem stepCore_reconn_frame {s t : CS} {e : Ev} (h : stepCore s e = some t) :
     (e = .reconnStart ∧ s.reconn = 0 ∧ t.reconn = 1 ∧ t.reconnSlept = false) ∨
     (∃ ms, e = .reconnSleep ms ∧ 500 ≤ ms ∧ s.reconn = 1 ∧ s.reconnSlept = false ∧ t.reconn = 1 ∧ t.reconnSlept = true) ∨
     (e = .reconnEnd ∧ s.reconn = 1 ∧ t.reconn = 0 ∧ t.reconnSlept = s.reconnSlept) ∨
-    (e = .reconnCall ∧ s.reconn = 1 ∧ s.reconnSlept = true ∧ t.reconn = 1 ∧ t.reconnSlept = true) ∨
+    (e = .reconnCall ∧ s.reconn = 1 ∧ s.reconnSlept = true ∧ t.reconn = 1 ∧ t.reconnSlept = false) ∨
     (e ≠ .reconnStart ∧ (∀ ms, e ≠ .reconnSleep ms) ∧ e ≠ .reconnEnd ∧ e ≠ .reconnCall ∧
       t.reconn = s.reconn ∧ t.reconnSlept = s.reconnSlept) := by
   cases e <;> simp only [stepCore] at h <;> (try split at h) <;>
@@ -230,7 +230,7 @@ theorem step_reconn_frame {s s' : CS} {e : Ev} (h : step s e = some s') :
     (e = .reconnStart ∧ s.reconn = 0 ∧ s'.reconn = 1 ∧ s'.reconnSlept = false) ∨
     (∃ ms, e = .reconnSleep ms ∧ 500 ≤ ms ∧ s.reconn = 1 ∧ s.reconnSlept = false ∧ s'.reconn = 1 ∧ s'.reconnSlept = true) ∨
     (e = .reconnEnd ∧ s.reconn = 1 ∧ s'.reconn = 0 ∧ s'.reconnSlept = s.reconnSlept) ∨
-    (e = .reconnCall ∧ s.reconn = 1 ∧ s.reconnSlept = true ∧ s'.reconn = 1 ∧ s'.reconnSlept = true) ∨
+    (e = .reconnCall ∧ s.reconn = 1 ∧ s.reconnSlept = true ∧ s'.reconn = 1 ∧ s'.reconnSlept = false) ∨
     (e ≠ .reconnStart ∧ (∀ ms, e ≠ .reconnSleep ms) ∧ e ≠ .reconnEnd ∧ e ≠ .reconnCall ∧
       s'.reconn = s.reconn ∧ s'.reconnSlept = s.reconnSlept) := by
   obtain ⟨t, ht, rfl⟩ := step_eq_some.1 h
